@@ -30,7 +30,8 @@ RULE = ("prime selection: every size 25..1200 (plus 12 and 24) x several "
         "shift, antennas, normalised, users); non-trivial = size > 24 or a "
         "multi-tap channel.  "
         "Cover codes are Walsh rows of length 2 and 4. "
-        "The normalisation flag reaches the sequences as a literal, a numpy bool or 0/1. ")
+        "The normalisation flag reaches the sequences as a literal, a numpy bool or 0/1. "
+        "A quarter of the LS pilot matrices have nearly parallel rows (condition up to 1e4). ")
 ASSUMPTIONS = ["phase of the reference ZC sequence reduced exactly with integer "
                "arithmetic modulo 2 Nzc; library phases are allowed 8 eps pi u N",
                "multi-user estimator scenarios only for lengths that are a "
@@ -458,7 +459,10 @@ def case_ls(ctx, rng, idx):
     nreal = int(rng.integers(1, 5))
 
     def pilots():
-        S, _ = num.controlled_matrix(rng, Nt, npil, 1e2, real=real_p)
+        # full-rank pilot matrices; a quarter of them with nearly parallel rows
+        # (condition up to 1e4 -- the exactness tolerance grows with its square)
+        S, _ = num.controlled_matrix(rng, Nt, npil, 1e4 if rng.random() < 0.25 else 1e2,
+                                     real=real_p)
         if real_p and rng.random() < 0.5:
             Sq = np.sign(rng.standard_normal((Nt, npil)))
             if np.linalg.matrix_rank(Sq) == Nt and np.linalg.cond(Sq) < 1e3:
